@@ -34,6 +34,7 @@ REPLAY_DIR = os.path.join(HERE, "replays")
 EVID_DIR = os.path.join(HERE, "evidence")
 KNOWN = os.path.join(HERE, "known_findings.jsonl")
 BASELINE = os.path.join(HERE, "baseline_obligations.json")
+CANARIES = os.path.join(HERE, "canaries.json")
 MAX_CANDIDATES = 6
 
 _G: Dict[str, Any] = {}
@@ -88,6 +89,8 @@ def work(task: Tuple[str, str, str, List[str], str]) -> Dict[str, Any]:
     try:
         repo, ct = load_all()
         REG.active_regions = set(active_regions)
+        if relpath.startswith("<canary>"):
+            return work_canary(repo, ct, relpath[len("<canary>"):], qualname, prop, out, t0)
         if relpath == "<lemma>":
             return work_lemma(repo, ct, qualname, prop, tier, out, t0)
         con = REG.contracts[(relpath, qualname)]
@@ -146,6 +149,39 @@ def work(task: Tuple[str, str, str, List[str], str]) -> Dict[str, Any]:
             shutil.rmtree(tmpd, ignore_errors=True)
     except Exception:
         out["error"] = traceback.format_exc()
+    out["wall_s"] = round(time.time() - t0, 3)
+    return out
+
+
+def work_canary(repo, ct, relpath: str, spec: str, prop: str, out: Dict[str, Any], t0: float) -> Dict[str, Any]:
+    """A committed in-memory mutant of a real function: it must make at least one obligation of this
+    property fail, otherwise the engine or the contract has become vacuous (checker error)."""
+    from pyvc import mutants
+    qualname, k, sha = spec.split("|")
+    info = repo.func(relpath, qualname)
+    out.update(relpath="<canary>", qualname=f"{qualname}#{k}", is_canary=True, verdicts=[], unsupported=None,
+               sha256=info.sha256, paths=0, assumptions=[], opaque_calls=[], inlined=[], exec_s=0.0)
+    if sha and sha != info.sha256:
+        out["canary"] = "skipped: the function's source changed since the canary was recorded"
+        out["wall_s"] = round(time.time() - t0, 3)
+        return out
+    m, desc = mutants.mutant(info, int(k))
+    con = REG.contracts[(relpath, qualname)]
+    fr = verify_function(repo, ct, REG, con, mutate=lambda i: m)
+    base = fr.ex.base + fr.ex.extra_axioms
+    killed = None
+    if fr.unsupported:
+        killed = "unsupported: " + fr.unsupported
+    else:
+        for ob in fr.obligations:
+            if ob.kind == "cover" or (ob.prop_ids and prop not in ob.prop_ids):
+                continue
+            v = solve.discharge(ob, base, use_cvc5=False)
+            if v.status != solve.PROVED:
+                killed = ob.name
+                break
+    out["canary"] = ("killed: " + killed) if killed else "SURVIVED"
+    out["canary_desc"] = desc
     out["wall_s"] = round(time.time() - t0, 3)
     return out
 
@@ -267,6 +303,11 @@ def run_check(prop: str, tier: str) -> int:
                              "detail": r.get("detail", "")[:300]})
     tasks = [(c.relpath, c.qualname, prop, active_regions, tier) for c in cons]
     tasks += [("<lemma>", l.name, prop, active_regions, tier) for l in REG.lemmas.values() if prop in l.props]
+    canaries = json.load(open(CANARIES)).get(prop, []) if os.path.exists(CANARIES) else []
+    if tier != "thorough":
+        canaries = canaries[:4]
+    tasks += [("<canary>" + c["relpath"], f"{c['qualname']}|{c['site']}|{c.get('sha256', '')}", prop, active_regions, tier)
+              for c in canaries]
     nproc = min(16, len(tasks)) or 1
     with mp.get_context("fork").Pool(nproc) as pool:
         results = pool.map(work, tasks, chunksize=1)
@@ -286,9 +327,15 @@ def run_check(prop: str, tier: str) -> int:
     proved_names: List[str] = []
     search_cache: Dict[Any, Any] = {}
     searches: List[Dict[str, Any]] = []
+    canary_report: List[Dict[str, Any]] = []
     for res in results:
         if res["error"]:
             errors.append(f"{res['qualname']}: {res['error']}")
+            continue
+        if res.get("is_canary"):
+            canary_report.append({"canary": res["qualname"], "mutation": res.get("canary_desc"), "result": res["canary"]})
+            if res["canary"] == "SURVIVED":
+                errors.append(f"canary mutant survived: {res['qualname']} ({res.get('canary_desc')})")
             continue
         funcs.append({"file": res["relpath"], "qualname": res["qualname"], "sha256": res.get("sha256"),
                       "paths": res.get("paths"), "exec_s": res.get("exec_s"),
@@ -383,6 +430,7 @@ def run_check(prop: str, tier: str) -> int:
             "known_findings_reproduced": known_report,
             "regions_active": active_regions,
             "refutation_searches": searches,
+            "canaries": canary_report,
             "explanation": "contract-based deductive verification of the real source re-read from /repo "
                            "(pyvc: AST symbolic executor -> VCs -> z3/cvc5); see DESIGN.md",
         },
